@@ -169,7 +169,7 @@ impl Prop for C04Prop {
             Stream::random("seedmut", if q { 1500 } else { 20000 }, 64),
             Stream::random("seedmut_chk", if q { 700 } else { 8000 }, 64).chk(),
             Stream::random("directives", if q { 600 } else { 8000 }, 400),
-            Stream::random("deep", if q { 120 } else { 4000 }, 64),
+            Stream::random("deep", if q { 60 } else { 3000 }, 64),
             Stream::random("long", if q { 8 } else { 40 }, 16).shards(4),
             Stream::exhaustive("scaling", adversarial::OPENERS.len() as u64 * 4).shards(8),
         ];
